@@ -11,6 +11,8 @@
     (Gen/CellIDCov.v), regenerated from /repo on every run.  Definitions only; no proofs here. *)
 From Coq Require Import ZArith List Bool Sorting.Mergesort Orders FSets.FMapPositive.
 From Geo Require Import Base.GoPrim Gen.CellIDCov.
+From Geo Require Import Gen.CellID.  (* s2_CellID_Next *)
+From Geo Require Import Gen.CellIDFull.  (* s2_CellID_CommonAncestorLevel *)
 Import ListNotations.
 Local Open Scope Z_scope.
 
